@@ -5,7 +5,9 @@ from specs import graphpred
 
 PROP = "C04"
 LEVEL = "exploration"
-ENGINE = "bounded"
+ENGINE = "pyvc+bounded"
+HARNESS_MODULES = ['contracts.c04_graph_plumbing']
+EXTRA_HARNESSES = []
 MOD = "props.C04"
 
 
@@ -87,10 +89,10 @@ RULE = ("emission contract evaluated on the real active_vertices_connected for e
         "n<=4 (quick) / n<=5 (thorough) and the listed grid shapes, x acyclic x use_graph_primitive x operand form "
         "(variables, negated variables, xor expressions, Python constants); every one of the 2^n activity patterns is "
         "decided by one z3 query (hidden variables existential); distinct = distinct (structure, options) instances")
-TECHNIQUE = ("bounded stand-in for a contract on the real emitter: precondition/postcondition/frame evaluated "
+TECHNIQUE = ("pyvc (proved, all sizes): Graph.add_edge representation invariant, _grid_graph (sound and complete, documented numbering), operand layout and size checks of the native connectivity operator; the encoder itself: bounded stand-in for a contract on the real emitter: precondition/postcondition/frame evaluated "
              "exhaustively inside the stated scope; postcondition 'exists aux: den(emitted) <=> Pred(graph, alpha)' "
              "decided per activity pattern by z3 over the reference semantics specs/den.py")
-LEVEL_TEXT = ("exploration (bounded-exhaustive): the contract of the encoder quantifies over all graphs; no installed "
+LEVEL_TEXT = ("exploration: the integer/list plumbing around the encoder is proved by pyvc (see technique); the encoder (bounded-exhaustive): the contract of the encoder quantifies over all graphs; no installed "
               "deductive tool can do the induction over graphs on the Python text, so the same contract is decided "
               "exhaustively for all small graphs/grids and ALL activity patterns of each; never counted as proved")
 LEVEL_NOTE = ("trusted: specs/den.py (reference meaning of the DSL, incl. the decoding of the native graph operator), "
